@@ -25,35 +25,38 @@ type Clause struct {
 }
 
 type LoopSpec struct {
+	Frame      bool // assume the function's frame at the loop head (opt-in: costs quantified axioms)
 	Invariants []*Clause
 	Decreases  *Clause
 	Unroll     int
 }
 
 type Contract struct {
-	Kind     string // func, extern, iface, lemma
-	Name     string // SSA-style name: getVarInt, (*Writer).add, os.Remove, record.key
-	Params   []string
-	Results  []string
-	Props    []string
-	Requires []*Clause
-	Ensures  []*Clause
-	Modifies []*Clause // nil = unspecified
-	HasMod   bool
-	Pure     bool // "pure": writes nothing
-	NoPanic  bool
-	NoPanicP []string
-	Loops    map[int]*LoopSpec
-	Uses     []string // axioms/lemmas to include
-	Trusted  bool     // contract assumed, body not verified (listed)
-	Inline   bool     // always inline, never modular
-	Frame    bool     // check stores against modifies (frame obligations)
-	FrameP   []string
-	Line     int
-	File     string
+	Kind      string // func, extern, iface, lemma
+	Name      string // SSA-style name: getVarInt, (*Writer).add, os.Remove, record.key
+	Params    []string
+	Results   []string
+	Props     []string
+	Requires  []*Clause
+	Ensures   []*Clause
+	Modifies  []*Clause // nil = unspecified
+	HasMod    bool
+	Pure      bool // "pure": writes nothing
+	NoPanic   bool
+	NoPanicP  []string
+	Decreases *Clause
+	Loops     map[int]*LoopSpec
+	Uses      []string // axioms/lemmas to include
+	Trusted   bool     // contract assumed, body not verified (listed)
+	Inline    bool     // always inline, never modular
+	Frame     bool     // check stores against modifies (frame obligations)
+	FrameP    []string
+	Line      int
+	File      string
 }
 
 type SpecFunc struct {
+	Opaque bool // defined, but used through an uninterpreted symbol plus one definitional axiom
 	Name   string
 	Params []SVar
 	Result string
@@ -187,7 +190,7 @@ func (cs *ContractSet) loadFile(path string) error {
 
 var keywords = map[string]bool{"func": true, "extern": true, "iface": true, "lemmafn": true, "spec": true, "axiom": true, "lemma": true, "ghost": true,
 	"requires": true, "ensures": true, "modifies": true, "nopanic": true, "loop": true, "props": true, "results": true,
-	"params": true, "use": true, "trusted": true, "pure": true, "inline": true, "frame": true}
+	"params": true, "use": true, "decreases": true, "trusted": true, "pure": true, "inline": true, "frame": true}
 
 func startsWithKeyword(s string) bool {
 	w, _ := splitWord(s)
@@ -212,7 +215,13 @@ func parseSpecFunc(s string) (*SpecFunc, error) {
 	if i < 0 {
 		return nil, fmt.Errorf("spec: missing (")
 	}
-	sf := &SpecFunc{Name: strings.TrimSpace(s[:i]), Text: s}
+	opaque := false
+	if strings.HasPrefix(strings.TrimSpace(s), "opaque ") {
+		opaque = true
+		s = strings.TrimSpace(strings.TrimSpace(s)[7:])
+		i = strings.Index(s, "(")
+	}
+	sf := &SpecFunc{Name: strings.TrimSpace(s[:i]), Text: s, Opaque: opaque}
 	j := strings.Index(s, ")")
 	ps := strings.TrimSpace(s[i+1 : j])
 	if ps != "" {
@@ -298,6 +307,12 @@ func (cs *ContractSet) addClause(c *Contract, w, rest string, line int, file str
 		takeMeta()
 		c.NoPanic = true
 		c.NoPanicP = props
+	case "decreases":
+		cl, err := mk("decreases")
+		if err != nil {
+			return err
+		}
+		c.Decreases = cl
 	case "requires":
 		cl, err := mk("requires")
 		if err != nil {
@@ -318,11 +333,24 @@ func (cs *ContractSet) addClause(c *Contract, w, rest string, line int, file str
 			if part == "" || part == "nothing" {
 				continue
 			}
+			var cond SExpr
+			if k := strings.Index(part, " if "); k >= 0 {
+				ce, err := parseSpec(part[k+4:])
+				if err != nil {
+					return err
+				}
+				cond = ce
+				part = strings.TrimSpace(part[:k])
+			}
 			e, err := parseSpec(strings.ReplaceAll(part, ".*", ".ALLFIELDS"))
 			if err != nil {
 				return err
 			}
-			c.Modifies = append(c.Modifies, &Clause{Kind: "modifies", Text: part, Expr: e, Line: line, File: file})
+			cl := &Clause{Kind: "modifies", Text: part, Expr: e, Line: line, File: file}
+			if cond != nil {
+				cl.Exprs = []SExpr{cond}
+			}
+			c.Modifies = append(c.Modifies, cl)
 		}
 	case "loop":
 		nS, r2 := splitWord(rest)
@@ -354,6 +382,8 @@ func (cs *ContractSet) addClause(c *Contract, w, rest string, line int, file str
 				return err
 			}
 			ls.Decreases = cl
+		case "frame":
+			ls.Frame = true
 		case "unroll":
 			ls.Unroll, _ = strconv.Atoi(strings.TrimSpace(rest))
 		default:
